@@ -104,6 +104,27 @@ func zeroSizeFile(h fitmodel.Header) []byte {
 	return buildFile(h, recs...)
 }
 
+// sizedActivity: an activity file whose data area is exactly `target` bytes (records of 10 bytes + one filler record).
+func sizedActivity(h fitmodel.Header, target int) []byte {
+	n := (target - 11 - 15) / 10
+	recs := fitmodel.FileIdRecords(0, 4)
+	recs = append(recs, recordDef(1, false).Bytes())
+	for i := 0; i < n; i++ {
+		recs = append(recs, recordData(1, false, 1000000000+uint32(i), byte(60+i%90), uint32(i)))
+	}
+	rest := target - 11 - 15 - 10*n
+	if rest > 0 {
+		if rest < 11 {
+			recs = recs[:len(recs)-1]
+			rest += 10
+		}
+		k := rest - 10
+		d := fitmodel.Def{Local: 2, Global: 0x0114, Fields: []fitmodel.FieldDef{{Num: 0, Size: byte(k), Base: fitmodel.Byte}}}
+		recs = append(recs, d.Bytes(), fitmodel.Data(2, make([]byte, k)))
+	}
+	return buildFile(h, recs...)
+}
+
 func chain(name string, members ...[]byte) namedStream {
 	return namedStream{Name: name, B: fitmodel.Concat(members...), Members: members}
 }
@@ -124,6 +145,8 @@ var (
 	sChain2b     = chain("chain(activity-3rec,settings)", sAct3.B, sSet.B)
 	sChain3      = chain("chain(min14,activity-3rec-be,min12)", sMin14.B, sAct3BE.B, sMin12.B)
 	sChainBig    = chain("chain(activity-700rec,min14)", sBig.B, sMin14.B)
+	s4096        = single("activity-datasize-4096", sizedActivity(hdr12(), 4096))
+	s8192        = single("activity-datasize-8192", sizedActivity(hdr14(), 8192))
 	sMonState    = single("monitoring-stateful", monitoringStateful(hdr14()))
 	sZero        = single("zero-size-fields", zeroSizeFile(hdr12()))
 	sChainState  = chain("chain(activity-3rec,monitoring-stateful)", sAct3.B, sMonState.B)
